@@ -462,6 +462,71 @@ theorem honest_pair_carries_datagram_lists (aControlling : Bool) (component addr
   exact ⟨(application_datagrams_carried _ _ addrA addrB hA hcB ps).1,
          (application_datagrams_carried _ _ addrB addrA hB hcA qs).1⟩
 
+/-! ## STUN / application demultiplexing -/
+
+/-- **Demultiplexing rule, spelled out:** a datagram is handed to STUN processing only if it has ≥ 20 bytes, carries the magic
+cookie 0x2112A442 at offset 4, its length field equals size − 20 and its type is not 0. -/
+theorem isStun_iff (b : List UInt8) :
+    isStun b = true ↔
+      b.length ≥ 20 ∧ (b.drop 4).take 4 = [0x21, 0x12, 0xA4, 0x42] ∧
+      (∃ t0 t1 l0 l1 rest, b = t0 :: t1 :: l0 :: l1 :: rest ∧ l0.toNat * 256 + l1.toNat = b.length - 20 ∧ t0.toNat * 256 + t1.toNat ≠ 0) := by
+  constructor
+  · intro h
+    match b, h with
+    | t0 :: t1 :: l0 :: l1 :: c0 :: c1 :: c2 :: c3 :: rest, h =>
+      simp only [isStun, Bool.and_eq_true, decide_eq_true_eq, beq_iff_eq, bne_iff_ne, ne_eq] at h
+      obtain ⟨⟨⟨h1, h2⟩, h3⟩, ⟨⟨⟨h4, h5⟩, h6⟩, h7⟩⟩ := h
+      exact ⟨h1, by simp [h4, h5, h6, h7], t0, t1, l0, l1, _, rfl, h2, h3⟩
+  · rintro ⟨h1, h2, t0, t1, l0, l1, rest, rfl, h3, h4⟩
+    match rest, h1, h2, h3 with
+    | c0 :: c1 :: c2 :: c3 :: r, h1, h2, h3 =>
+      simp only [List.drop_succ_cons, List.drop_zero, List.take_succ_cons, List.take_zero, List.cons.injEq, and_true] at h2
+      obtain ⟨h5, h6, h7, h8⟩ := h2
+      simp only [isStun, Bool.and_eq_true, decide_eq_true_eq, beq_iff_eq, bne_iff_ne, ne_eq]
+      exact ⟨⟨⟨h1, h3⟩, h4⟩, ⟨⟨⟨h5, h6⟩, h7⟩, h8⟩⟩
+    | [], h1, _, _ => simp at h1
+    | [_], h1, _, _ => simp at h1
+    | [_, _], h1, _, _ => simp at h1
+    | [_, _, _], h1, _, _ => simp at h1
+
+/-- every payload WITHOUT the magic cookie at offset 4 is application data -/
+theorem payload_without_cookie_is_not_stun (b : List UInt8) (h : (b.drop 4).take 4 ≠ [0x21, 0x12, 0xA4, 0x42]) :
+    isStun b = false := by
+  cases hs : isStun b with
+  | false => rfl
+  | true => exact absurd ((isStun_iff b).mp hs).2.1 h
+
+/-- **Every datagram that is not a STUN message by the demultiplexing rule is delivered to the application unchanged**, from a
+component that is not closed, whatever its state; the connectivity view does not change. -/
+theorem non_stun_payload_delivered (parse : List UInt8 → Stun) (s : St) (src : Nat) (b : List UInt8)
+    (hc : s.closed = false) (h : isStun b = false) :
+    (receive parse s src b).2 = [.appData b] ∧ connView (receive parse s src b).1 = connView s := by
+  simp only [receive, Datagram.ofBytes, h, Bool.false_eq_true, if_false, react, hc]
+  split <;> simp [connView, St.connected]
+
+/-- Which payloads are NOT carried as application data: exactly those that ARE STUN messages by the rule (cookie at offset 4, length
+field = size − 20, non-zero type) — they are handed to STUN processing instead.  This is inherent to demultiplexing STUN and data on
+one socket (RFC 5389 section 8 / RFC 7983); an RTP or DTLS packet cannot collide by accident because of the 32-bit cookie. -/
+theorem stun_shaped_payload_is_processed_as_stun (parse : List UInt8 → Stun) (s : St) (src : Nat) (b : List UInt8)
+    (h : isStun b = true) : receive parse s src b = react s { src := src, kind := .stun (parse b) } := by
+  simp [receive, Datagram.ofBytes, h]
+
+/-- **Connected agents carry every non-STUN payload list unchanged, on the raw bytes:** whatever the sender's application writes —
+provided no payload is itself a STUN message by the demultiplexing rule, in particular any list of payloads without the magic
+cookie — arrives at the receiver's application byte for byte and in order. -/
+theorem application_payloads_carried (parse : List UInt8 → Stun) (a b : St) (addrA addrB : Nat) (h : a.active = some addrB)
+    (hcb : b.closed = false) (ps : List (List UInt8)) (hns : ∀ p ∈ ps, isStun p = false) :
+    (run a (ps.map .sendApp)).2 = ps.map (Out.appSent addrB) ∧
+    (run b (ps.map fun p => .dgram (Datagram.ofBytes parse addrA p))).2 = ps.map Out.appData := by
+  refine ⟨by rw [run_sendApp a addrB h ps], ?_⟩
+  have e : (ps.map fun p => Op.dgram (Datagram.ofBytes parse addrA p))
+         = ps.map fun p => Op.dgram { src := addrA, kind := .nonStun p } := by
+    apply List.map_congr_left
+    intro p hp
+    simp [Datagram.ofBytes, hns p hp]
+  rw [e]
+  exact (run_nonStun b hcb addrA ps).1
+
 /-! ## Non-vacuity: concrete, non-trivial instances of the hypotheses -/
 
 /-- a component in the middle of a negotiation (own check 0 in flight to peer 1, peer's request already answered) -/
@@ -525,6 +590,12 @@ example : ((run (init false) [.addRemote 1 5, .addRemote 2 4]).1.fallback,
 -- peer-reflexive learning: hypotheses met by an authenticated request from an unknown address; the PRIORITY attribute is taken over
 example : (react (step (init false) .setRemoteCreds).1 { src := 7, kind := .stun { cls := .request, txid := 9, attrs := [.mi .validLocal], priority := 4242 } }).1.remoteCands
     = [{ addr := 7, prio := 4242, prflx := true }] := by decide
+-- demultiplexing: an RTP-like 24-byte packet with sequence number 4 (bytes 2..3 = size − 20, like seq 152 in a 172-byte stream) has no cookie: data;
+-- a minimal real STUN header is STUN; the same header with a wrong length field or type 0 is data
+example : isStun ([0x80, 0x00, 0x00, 0x04] ++ List.replicate 20 0x55) = false := by decide
+example : isStun ([0x00, 0x01, 0x00, 0x00, 0x21, 0x12, 0xA4, 0x42] ++ List.replicate 12 0) = true := by decide
+example : isStun ([0x00, 0x01, 0x00, 0x04, 0x21, 0x12, 0xA4, 0x42] ++ List.replicate 12 0) = false := by decide
+example : isStun ([0x00, 0x00, 0x00, 0x00, 0x21, 0x12, 0xA4, 0x42] ++ List.replicate 12 0) = false := by decide
 -- role conflict hypothesis is met by the honest request of a same-role agent
 example : handleRequest (init true) 1 { cls := .request, txid := 1, attrs := [.mi .validLocal], useCandidate := true, roleAttr := .controlling }
     = (init true, [.roleConflict]) := by decide
